@@ -137,10 +137,12 @@ def _len(x):
 
 
 def _is_slice(x, A, B_):
-    """x (rope or empty str/bytes) is file[A:B_]"""
+    """x (rope or empty bytes) is file[A:B_]; an empty *str* is not a slice of a binary file"""
     from pysx import rope
     if isinstance(x, rope.Rope):
         return x.equals_slice(A, B_)
+    if isinstance(x, str):
+        return False
     return (len(x) == 0) and (B_ - A == 0)
 
 
@@ -198,7 +200,7 @@ def _apply(sx, r, info, op, arg, bs, mb, tag=''):
         if isinstance(res, rope.Rope):
             ok = res.prefix_is_slice(start, c)
         else:
-            ok = (c == 0)
+            ok = (c == 0) if not isinstance(res, str) else False
         ok = sx_and(ok, pos_is(pos0))
         sx.prove(ok, 'C20.peek', detail={'arg': arg, 'result': res, 'pos_after': r.pos, 'expected_prefix': c})
         sx.note('expect', {'result_prefix': res[:c] if isinstance(res, rope.Rope) else res, 'pos': r.pos})
@@ -448,6 +450,9 @@ def replay(case):
         return {'violated': True, 'observed': {'raised': type(e).__name__, 'msg': str(e)[:200]}}
     bad = None
     for i, ((res, pos), (kind, want, wpos)) in enumerate(zip(obs, ref)):
+        if kind in ('data', 'prefix') and isinstance(res, str):
+            bad = {'step': i, 'got': repr(res), 'want': 'bytes ' + want.hex(), 'note': 'a str is not a slice of a binary file'}
+            break
         if kind == 'data':
             if _b(res) != want or pos != wpos:
                 bad = {'step': i, 'got': _b(res).hex(), 'want': want.hex(), 'pos': pos, 'want_pos': wpos}
